@@ -405,7 +405,7 @@ REGISTRY = {
         "run": c14.run,
         "rule": "(1) 600 (thorough 12000) generated requests over all tables (filter trees, Stats, Sort, AuthUser, WaitCondition, the *_with_info / *_with_state columns): Request.affectedTables vs Lmd.affectedTables, and Lmd.tablesRead "
                 "must be a subset of what the implementation locks; (2) race-detector build: 2-3 scripted backends stamping every object with a version in 6 columns of different kinds, comments added/removed, timeperiods flipping, "
-                "failures and restarts, virtual time running 50x, update loops ticking every 10 ms, 4-10 clients cycling through 16 query shapes (data, sorted, Stats, by-group, cross-table filters, virtual columns, AuthUser, WaitTrigger, sites) "
+                "failures and restarts, virtual time running 50x, update loops ticking every 10 ms, 4-10 clients cycling through 22 query shapes (data, sorted, Stats, by-group, cross-table filters, virtual columns, id lists, AuthUser, WaitTrigger with existing and missing WaitObject, sites) "
                 "over two real listeners for 3 s (thorough 3 x 15 s); every row is checked for one version, per-client monotonicity, JSON validity; race reports, crashes, hangs, refused clients are violations",
         "correspondence": "Lmd.affectedTables / tablesRead vs Request.affectedTables; schedules: race detector + torn-row oracle on the real daemon",
         "assumptions": ["partial: interleavings are sampled by the soak, not enumerated; the Lean theorems cover the locking discipline (every table read is locked, one global lock order, protocol model), not the Go memory model",
